@@ -5,56 +5,46 @@ package main
 import (
 	"context"
 	"fmt"
-	"os"
+	"sort"
 
 	"github.com/sourcenetwork/defradb/client"
 	vnode "github.com/sourcenetwork/defradb/internal/verifharness/node"
 )
 
-func main() {
-	ctx := context.Background()
+func ids(ctx context.Context, batches ...string) {
 	n, err := vnode.NewMem(ctx)
 	if err != nil {
 		panic(err)
 	}
 	defer n.Close()
-	_, err = n.DB.AddSchema(ctx, `type Item { name: String
- n: Int @default(int: 7) }`)
-	if err != nil {
-		panic(err)
-	}
-	col, _ := n.DB.GetCollectionByName(ctx, "Item")
-	d1, _ := client.NewDocFromJSON([]byte(`{"name": "a", "n": 1}`), col.Definition())
-	d2, _ := client.NewDocFromJSON([]byte(`{"name": "b", "n": null}`), col.Definition())
-	fmt.Println(col.Create(ctx, d1), col.Create(ctx, d2))
-	ok, err := col.Delete(ctx, d1.ID())
-	fmt.Println("delete", ok, err)
-	func() {
-		defer func() {
-			if r := recover(); r != nil {
-				fmt.Println("PANIC in export:", r)
-			}
-		}()
-		err = n.DB.BasicExport(ctx, &client.BackupConfig{Filepath: "/tmp/probe_export.json"})
-		fmt.Println("export", err)
-	}()
-	b, _ := os.ReadFile("/tmp/probe_export.json")
-	fmt.Println(string(b))
-	g, err := col.Get(ctx, d2.ID(), false)
-	if err == nil {
-		v, e := g.GetValue("n")
-		if e != nil {
-			fmt.Println("Get n err", e)
-		} else {
-			fmt.Println("Get n =", v.Value())
+	for _, b := range batches {
+		if _, err := n.DB.AddSchema(ctx, b); err != nil {
+			fmt.Println("  error:", err)
+			return
 		}
 	}
-	res := n.DB.ExecRequest(ctx, `query { Item { name n } }`)
-	fmt.Println(res.GQL.Data, res.GQL.Errors)
-	_, err = col.CreateIndex(ctx, client.IndexCreateRequest{Fields: []client.IndexedFieldDescription{{Name: "n"}}})
-	fmt.Println("index", err)
-	res = n.DB.ExecRequest(ctx, `query { Item(filter: {n: {_eq: null}}) { name n } }`)
-	fmt.Println("eq null:", res.GQL.Data, res.GQL.Errors)
-	res = n.DB.ExecRequest(ctx, `query { Item(filter: {n: {_eq: 7}}) { name n } }`)
-	fmt.Println("eq 7:", res.GQL.Data, res.GQL.Errors)
+	cols, _ := n.DB.GetCollections(ctx, client.CollectionFetchOptions{})
+	var ls []string
+	for _, c := range cols {
+		ls = append(ls, fmt.Sprintf("   %s %s", c.Name(), c.Version().VersionID))
+	}
+	sort.Strings(ls)
+	for _, l := range ls {
+		fmt.Println(l)
+	}
+}
+
+func main() {
+	ctx := context.Background()
+	cyc := "type Bee { name: String\n r1dog: Dog }\ntype Dog { name: String\n r1cat: Cat }\ntype Cat { name: String\n r1bee: Bee }\n"
+	ant := "type Ant { name: String\n r1dog: Dog\n r2bee: Bee }\n"
+	fmt.Println("cycle alone")
+	ids(ctx, cyc)
+	fmt.Println("cycle + Ant, one call")
+	ids(ctx, cyc+ant)
+	fmt.Println("cycle, then Ant")
+	ids(ctx, cyc, ant)
+	ant1 := "type Ant { name: String\n r1dog: Dog }\n"
+	fmt.Println("cycle + Ant(1 ref), one call")
+	ids(ctx, cyc+ant1)
 }
